@@ -283,8 +283,9 @@ func c20Run(line string) string {
 				res = "v"
 			}
 		}
+		dump := "@" + c20Dump(c, round)
 		if eqW[0] > tolerated {
-			out = append(out, res+":~")
+			out = append(out, res+":~"+dump)
 		} else {
 			st := round.State()
 			cp := "F"
@@ -298,7 +299,7 @@ func c20Run(line string) string {
 				c.show(round.Finalized()) != c.show(st.Finalized) {
 				s += "!acc"
 			}
-			out = append(out, s)
+			out = append(out, s+dump)
 		}
 	}
 	pvW, _ := round.PrevoteParticipation()
